@@ -5,6 +5,8 @@ pub mod c01;
 pub mod c02;
 pub mod c03;
 pub mod c04;
+pub mod c05;
+pub mod c05_core;
 pub mod c06;
 pub mod c07;
 pub mod c08;
@@ -17,7 +19,9 @@ pub mod c14;
 pub mod c15;
 pub mod c16;
 pub mod c17;
+pub mod c18;
 pub mod c19;
+pub mod c20;
 
 pub fn run(ctx: &mut Ctx) -> bool {
     match ctx.prop.clone().as_str() {
@@ -25,6 +29,7 @@ pub fn run(ctx: &mut Ctx) -> bool {
         "C02" => c02::run(ctx),
         "C03" => c03::run(ctx),
         "C04" => c04::run(ctx),
+        "C05" => c05::run(ctx),
         "C06" => c06::run(ctx),
         "C07" => c07::run(ctx),
         "C08" => c08::run(ctx),
@@ -37,6 +42,8 @@ pub fn run(ctx: &mut Ctx) -> bool {
         "C15" => c15::run(ctx),
         "C16" => c16::run(ctx),
         "C17" => c17::run(ctx),
+        "C18" => c18::run(ctx),
+        "C20" => c20::run(ctx),
         "C19" => c19::run(ctx),
         _ => return false,
     }
